@@ -159,6 +159,14 @@ def make_case(rng, size="small", klass=None, meters=None, features=None, divs=No
     part, meta = gen_score.make_part(rng, "P1", features=features, divs=divs, meters=meters, n_measures=n_measures,
                                      voices=(rng.randint(2, 3) if "multivoice" in features else 1),
                                      voice_base=rng.choice([0, 0, 0, 4, 9]), max_alter=rng.choice([1, 1, 2]))
+    if rng.random() < 0.08:
+        # a part of many staves (an organ or orchestral reduction): staff numbers of two digits
+        import partitura.score as S_
+        for tp in part._points:
+            for objs in tp.starting_objects.values():
+                for o in objs:
+                    if isinstance(getattr(o, "staff", None), int):
+                        o.staff += 9
     c.id_style = id_style or rng.choices(["default", "numeric", "suffixed"], [0.7, 0.15, 0.15])[0]
     rename_ids(part, c.id_style)
     c.part, c.meta, c.features = part, meta, features
